@@ -100,6 +100,35 @@ Definition edge_row_ok (ss : list (gsample node_info)) (a b : string) (w : Z) : 
 
 Definition items_of (t : term) : list term := match gl t with TS _ :: r => r | r => r end.
 
+(* ---- what an untrimmed report must show, from the definition sums only ---- *)
+Definition c04_nodup (l : list node_info) : list node_info :=
+  fold_right (fun k acc => if memK node_info ni_eqb k acc then acc else k :: acc) [] l.
+
+(* graph mode: an entry is hidden only if its flat and cum are both 0 (or it is negative under
+   drop_negative); every other entry is a row (name, FlatValue, CumValue) *)
+Definition expected_rows (o : ropts) (ss : list (gsample node_info)) : list term :=
+  flat_map (fun k => let v := spec_nval node_info ni_eqb None ss k in
+                     if node_dropped (o_drop_negative o) v then []
+                     else [TL [TS (printable_name k); TZ (flat_value v); TZ (cum_value v)]])
+           (c04_nodup (all_keys node_info ss)).
+Definition sets_match (exp obs : list term) : bool := term_eqb (canon (set_of exp)) (canon (set_of obs)).
+
+(* call-tree mode: one row per path with non-hidden numbers; one edge into each from its shown parent *)
+Definition tree_rows_raw (o : ropts) (ss : list (gsample node_info)) : list term :=
+  map (fun e => of_nval (of_ni (last_ni (fst e))) (snd e)) (tree_expected_nodes node_info ni_eqb (o_drop_negative o) ss).
+Definition tree_edges_raw (o : ropts) (ss : list (gsample node_info)) : list term :=
+  map (fun e => let '(p, q, w, wd) := e in TL [of_ni (last_ni p); of_ni (last_ni q); TZ w; TZ wd])
+      (tree_expected_edges node_info ni_eqb (o_drop_negative o) ss).
+Definition tree_rows_named (o : ropts) (ss : list (gsample node_info)) : list term :=
+  map (fun e => TL [TS (printable_name (last_ni (fst e))); TZ (flat_value (snd e)); TZ (cum_value (snd e))])
+      (tree_expected_nodes node_info ni_eqb (o_drop_negative o) ss).
+Definition tree_edges_named (o : ropts) (ss : list (gsample node_info)) : list term :=
+  map (fun e => let '(p, q, w, wd) := e in
+                TL [TS (printable_name (last_ni p)); TS (printable_name (last_ni q)); TZ (mean_value w wd)])
+      (tree_expected_edges node_info ni_eqb (o_drop_negative o) ss).
+Definition proj3 (t : term) (a b c : nat) : term := TL [gn t a; gn t b; gn t c].
+Definition proj4 (t : term) : term := TL [gn t 0; gn t 1; gn t 2; gn t 3].
+
 Definition spec_C04 (i ob : term) : bool :=
   let '(o, (si, pr)) := c04_prepare i in
   let form := gs (gn i 2) in
@@ -110,26 +139,36 @@ Definition spec_C04 (i ob : term) : bool :=
       if negb (String.eqb (gs (gn ob 0)) "ok") then false
       else if String.eqb form "graph" then
         (gz (gn ob 1) =? tot) &&
-        (if eff_call_tree o then true   (* call-tree numbers are judged through dot below and by correspondence *)
+        (if eff_call_tree o
+         then sets_match (tree_rows_raw o ss) (items_of (gn ob 2)) &&
+              sets_match (tree_edges_raw o ss) (map proj4 (items_of (gn ob 3)))
          else check_graph node_info ni_eqb None (o_drop_negative o) ss (igraph_of (gn ob 2) (gn ob 3)))
       else if String.eqb form "items" then
         (gz (gn ob 1) =? tot) &&
         forallb (fun r => row_ok o ss (gs (gn r 0)) (gz (gn r 2)) (gz (gn r 3))) (gl (gn ob 3)) &&
+        sets_match (expected_rows o ss) (map (fun r => proj3 r 0 2 3) (gl (gn ob 3))) &&
         (gz (gn ob 2) =? fold_left (fun a r => wadd a (gz (gn r 2))) (gl (gn ob 3)) 0)
       else if String.eqb form "top" then
         (gz (gn ob 2) =? tot) &&
         forallb (fun r => row_ok o ss (strip_inl (gs (gn r 0))) (gz (gn r 1)) (gz (gn r 2))) (gl (gn ob 3)) &&
+        sets_match (expected_rows o ss) (map (fun r => TL [TS (strip_inl (gs (gn r 0))); gn r 1; gn r 2]) (gl (gn ob 3))) &&
         (gz (gn ob 1) =? fold_left (fun a r => wadd a (gz (gn r 1))) (gl (gn ob 3)) 0)
       else if String.eqb form "tree" then
         (gz (gn ob 2) =? tot) &&
+        sets_match (expected_rows o ss) (map (fun b => proj3 b 0 1 2) (gl (gn ob 3))) &&
+        (gz (gn ob 1) =? fold_left (fun a r => wadd a (gz (gn r 1))) (gl (gn ob 3)) 0) &&
         forallb (fun b => row_ok o ss (gs (gn b 0)) (gz (gn b 1)) (gz (gn b 2)) &&
                           forallb (fun e => edge_row_ok ss (strip_inl (gs (gn e 0))) (gs (gn b 0)) (gz (gn e 1))) (items_of (gn b 3)) &&
                           forallb (fun e => edge_row_ok ss (gs (gn b 0)) (strip_inl (gs (gn e 0))) (gz (gn e 1))) (items_of (gn b 4)))
                 (gl (gn ob 3))
       else if String.eqb form "dot" then
         (gz (gn ob 2) =? tot) &&
-        (if eff_call_tree o then true
-         else forallb (fun r => row_ok o ss (gs (gn r 0)) (gz (gn r 1)) (gz (gn r 2))) (items_of (gn ob 3)) &&
+        (gz (gn ob 1) =? fold_left (fun a r => wadd a (gz (gn r 1))) (items_of (gn ob 3)) 0) &&
+        (if eff_call_tree o
+         then sets_match (tree_rows_named o ss) (items_of (gn ob 3)) &&
+              sets_match (tree_edges_named o ss) (map (fun e => proj3 e 0 1 2) (items_of (gn ob 4)))
+         else sets_match (expected_rows o ss) (items_of (gn ob 3)) &&
+              forallb (fun r => row_ok o ss (gs (gn r 0)) (gz (gn r 1)) (gz (gn r 2))) (items_of (gn ob 3)) &&
               forallb (fun e => edge_row_ok ss (gs (gn e 0)) (gs (gn e 1)) (gz (gn e 2)) && negb (gb (gn e 3))) (items_of (gn ob 4)))
       else true
   | _ => String.eqb (gs (gn ob 0)) "err"
